@@ -9,7 +9,8 @@ import (
 )
 
 func c09cfg() GenCfg {
-	cfg := GenCfg{MaxEntries: 300, MinOps: 5, MaxOps: 60}
+	cfg := GenCfg{MaxEntries: 300, MinOps: 5, MaxOps: 60, NewLife: true,
+		Weights: map[OpKind]int{OpRemoveNode: 5}}
 	if !vfhelp.Thorough() {
 		cfg.MaxOps = 40
 	}
